@@ -1,4 +1,4 @@
-//! libFuzzer target for C01/C02 (and merges with every file eligible): bytes -> (config, ops),
+//! libFuzzer target for C01/C02/C05 (merges under arbitrary thresholds): bytes -> (config, ops),
 //! the real store against a BTreeMap model, in-target oracle.
 #![no_main]
 use std::collections::BTreeMap;
@@ -8,15 +8,15 @@ use bitcask::storage::{bitcask::Config, KeyValueStorage};
 use bytes::Bytes;
 use libfuzzer_sys::fuzz_target;
 
-fn cfg(dir: &std::path::Path, mfs: u64, cache: usize, conc: usize) -> Config {
+fn cfg(dir: &std::path::Path, mfs: u64, cache: usize, conc: usize, thr: (f64, u64, u64)) -> Config {
     serde_json::from_value(serde_json::json!({
         "path": dir.to_string_lossy(),
         "concurrency": conc,
         "readers_cache_size": cache,
         "max_file_size": mfs,
         "sync": "none",
-        // every non-empty file eligible (partial selection is C05's subject)
-        "merge": {"policy": "never", "thresholds": {"fragmentation": 0.0, "dead_bytes": 0, "small_file": u64::MAX}},
+        // arbitrary thresholds: merges select arbitrary subsets of files
+        "merge": {"policy": "never", "thresholds": {"fragmentation": thr.0, "dead_bytes": thr.1, "small_file": thr.2}},
     }))
     .unwrap()
 }
@@ -26,12 +26,17 @@ fuzz_target!(|data: &[u8]| {
     let mfs = *u.choose(&[0u64, 1, 40, 100, 300, 4096, 1 << 31]).unwrap_or(&300);
     let cache = *u.choose(&[0usize, 1, 2, 256]).unwrap_or(&1);
     let conc = *u.choose(&[0usize, 1, 4]).unwrap_or(&1);
+    let thr = (
+        *u.choose(&[0.0f64, 0.2, 0.5, 0.8, 1.0]).unwrap_or(&0.0),
+        *u.choose(&[0u64, 30, 200, u64::MAX]).unwrap_or(&0),
+        *u.choose(&[0u64, 60, 300, u64::MAX]).unwrap_or(&u64::MAX),
+    );
     let dir = std::path::PathBuf::from(format!("/dev/shm/vfuzz-store-{}", std::process::id()));
     let _ = std::fs::remove_dir_all(&dir);
     std::fs::create_dir_all(&dir).unwrap();
     let mut model: BTreeMap<Vec<u8>, Vec<u8>> = BTreeMap::new();
     let keys: [&[u8]; 5] = [b"", b"a", b"key-two", b"\x00\r\n\xff", b"a-much-longer-key-a-much-longer-key-a-much-longer-key"];
-    let mut kv = Some(cfg(&dir, mfs, cache, conc).open().expect("open"));
+    let mut kv = Some(cfg(&dir, mfs, cache, conc, thr).open().expect("open"));
     let mut n = 0u32;
     while let Ok(op) = u.int_in_range(0..=9u8) {
         n += 1;
@@ -68,7 +73,7 @@ fuzz_target!(|data: &[u8]| {
             _ => {
                 drop(h);
                 kv = None;
-                kv = Some(cfg(&dir, mfs, cache, conc).open().expect("reopen"));
+                kv = Some(cfg(&dir, mfs, cache, conc, thr).open().expect("reopen"));
             }
         }
         let h = kv.as_ref().unwrap().get_handle();
